@@ -79,7 +79,8 @@ def builtin_glue(needs_module: str) -> Callable[[InstallGlueFn], InstallGlueFn]:
     def decorate(fn: InstallGlueFn) -> InstallGlueFn:
         assert needs_module not in builtin_glue_pending
         if (
-            needs_module in sys.modules
+            # (a None entry blocks the import: not loaded, and never will be)
+            sys.modules.get(needs_module) is not None
             and "sphinx" not in sys.modules
             and not hasattr(sys.modules[needs_module], "_stackscope_install_glue_")
         ):
